@@ -7,8 +7,11 @@ The Python lists `row_potential`, `col_potential`, `col_match`, `augment_path`, 
 inserted) are modelled as functions `Nat → _` with point updates `upd`; `float("inf")` is
 `none : Option Rat`.  Iteration order, strict comparisons (`<`), first-minimum tie-breaking,
 the sequential `row_potential[col_match[j]] += delta` loop, the padding with zeros and the
-`max_val - c` transformation are those of the code.  Loops carry fuel (`n + 2` / `n + 1`, more than the code can use); running out of
-fuel or meeting `delta = inf` (where the Python loop would not terminate) sets `stuck`.
+`max_val - c` transformation are those of the code.  The two `while` loops carry fuel (`n + 2`
+resp. `n + 1`); running out of fuel or meeting `delta = inf` (where the Python loop would not
+terminate) sets `stuck` — `hungarian_certifies` (Theorems.lean) proves that this never happens.
+The states of the loops keep their functions tabulated (`Tab`, extensionally the same function,
+`Tab.get_of`) so that compiled lookups are O(1).
 -/
 namespace Solvor.Assign
 
